@@ -58,7 +58,7 @@ Definition sq_sort (l : list (option N * phrase)) := fold_left (fun acc x => sq_
 
 (* lookup_first_n_phrases: the strategy is ignored; .take(first) *)
 Definition sq_lookup (db : sqdb) (k : key) (first : N) : list phrase :=
-  firstN first
+  truncate_usize first
     (map snd (sq_sort (map (fun r => (d_sort r, row_phrase db r))
                            (filter (fun r => seq_eqb (d_key r) k) (sq_dict db))))).
 
